@@ -9,10 +9,12 @@ import (
 	"crypto/sha256"
 	"encoding/binary"
 	"encoding/hex"
+	"encoding/json"
 	"errors"
 	"fmt"
 	"os"
 	"sort"
+	"strings"
 	"testing"
 
 	"github.com/algorand/go-algorand/crypto/merkletrie"
@@ -41,6 +43,7 @@ type Config struct {
 	CheckEvery bool    `json:"root_check_after_every_op"`
 	Profile    int     `json:"profile"`
 	Reconfig   bool    `json:"reconfig_on_reload"`
+	Sidestep   bool    `json:"sidestep_known_tail_page_defect"`
 	FCrash     bool    `json:"f_crash"`
 	FStore     bool    `json:"f_store_err"`
 	FLoad      bool    `json:"f_load_err"`
@@ -121,6 +124,7 @@ func drawConfig(tp *kernel.Tape, tier string) (Config, [][]byte) {
 	c.CheckEvery = tp.Choose("cfg.checkevery", 4) == 3
 	c.Profile = tp.Choose("cfg.profile", 5)
 	c.Reconfig = tp.Choose("cfg.reconfig", 2) == 1
+	c.Sidestep = tp.Choose("cfg.sidestep", 2) == 1 || os.Getenv("TRIESIM_AVOID_KNOWN") != ""
 	c.FCrash = tp.Choose("cfg.f.crash", 2) == 1
 	c.FStore = tp.Choose("cfg.f.store", 2) == 1
 	c.FLoad = tp.Choose("cfg.f.load", 2) == 1
@@ -305,21 +309,22 @@ type sim struct {
 	durable   [][]byte // the set as of the last transaction commit (what a crash falls back to)
 	dirty     bool     // a successful Add/Delete happened since the last trie-level commit
 
-	step      int
-	stats     map[string]int64
-	viol      *kernel.Violation
-	harness   string
-	states    []string
-	ops       []string
-	mech      int  // commits + evicts + reloads performed
-	mechLoop  int  // ... of which during the drawn operation sequence (the epilogue always adds some)
-	nonEmpty  bool // a root check passed on a non-empty set
-	shrinking bool // profile 3: currently in the delete-heavy phase
-	lastLine  string
-	repeats   int
-	poisoned  bool     // known-finding attribution: a commit ran while the partly filled tail page was evicted (see hazard())
-	trace     bool     // debugging aid (dump_test.go): record every operation with the full key
-	traceOps  []string // never logged, never influences the run
+	step       int
+	stats      map[string]int64
+	viol       *kernel.Violation
+	harness    string
+	states     []string
+	ops        []string
+	mech       int  // commits + evicts + reloads performed
+	mechLoop   int  // ... of which during the drawn operation sequence (the epilogue always adds some)
+	nonEmpty   bool // a root check passed on a non-empty set
+	shrinking  bool // profile 3: currently in the delete-heavy phase
+	lastLine   string
+	repeats    int
+	poisoned   bool     // known-finding attribution: a commit ran while the partly filled tail page was evicted (see beforeCommit)
+	rearmLater bool     // rearm() was asked for while a fault was armed
+	trace      bool     // debugging aid (dump_test.go): record every operation with the full key
+	traceOps   []string // never logged, never influences the run
 }
 
 func (s *sim) stat(k string, d int64) { s.stats[k] += d }
@@ -439,16 +444,33 @@ const KnownTailPage = "evict-drops-partial-tail-page"
 // rearm re-evaluates the hazard. Only called when the trie has no pending changes (right after a
 // successful commit or evict), when "the cache holds the tail page" cannot be faked by new allocations.
 func (s *sim) rearm() {
-	page, partial, cached, deferred := s.trie.VerifTailPage()
-	if partial && !cached && !deferred {
-		// (re)start the watch: the page is out of the cache NOW, whatever was loaded before
-		if !(s.d.watchOn && s.d.watchPg == page && !s.d.watchHit) {
-			s.stat("known_tail_page_evicted", 1)
-		}
-		s.d.watchOn, s.d.watchPg, s.d.watchHit = true, page, false
-	} else {
-		s.d.watchOn = false
+	if s.d.plan.kind != fkNone {
+		s.rearmLater = true // a fault is armed (root check of a fault step): evaluate after it is disarmed
+		return
 	}
+	s.rearmLater = false
+	page, partial, cached, deferred := s.trie.VerifTailPage()
+	if !(partial && !cached && !deferred) {
+		s.d.watchOn = false
+		return
+	}
+	if s.cfg.Sidestep {
+		// Half of the runs step around the known defect so that they keep full sensitivity and a
+		// map-order-independent log: the trie has no pending changes here, so re-making it over the same
+		// open transaction is invisible to the model (MakeTrie schedules the deferred load of the partly
+		// filled tail page, which is exactly what Evict forgets). Whether this happens depends on which
+		// pages the LRU evicted, i.e. on Go map iteration order inside the cache, so it is not logged.
+		s.stat("known_tail_page_sidesteps", 1)
+		if f := s.makeTrie(); f != "" {
+			s.violate("reload-error", "", "MakeTrie over the open transaction (no pending changes, no fault) failed: "+f)
+		}
+		return
+	}
+	// (re)start the watch: the page is out of the cache NOW, whatever was loaded before
+	if !(s.d.watchOn && s.d.watchPg == page && !s.d.watchHit) {
+		s.stat("known_tail_page_evicted", 1)
+	}
+	s.d.watchOn, s.d.watchPg, s.d.watchHit = true, page, false
 }
 
 // beforeCommit is called before anything that commits pending changes.
@@ -676,6 +698,9 @@ func (s *sim) oneStep() {
 	}
 	fired := s.d.fired > 0
 	s.d.disarm()
+	if s.rearmLater && panicked == "" && s.viol == nil {
+		s.rearm()
+	}
 	if fault != fNone && fired {
 		s.stat("fault_"+faultNames[fault]+"_fired", 1)
 	}
@@ -944,6 +969,41 @@ func (s *sim) sample() any {
 	return map[string]any{"config": s.cfg, "first_ops": s.ops, "steps": s.step, "final_set_size": len(s.cur.sorted), "tape_len": len(s.tape.Rec)}
 }
 
+var knownCache map[string]bool
+
+// knownOpen returns the keys of C17's open known findings: known_findings.json (VERIF_KNOWN_FILE, default
+// /verif/known_findings.json; read only) plus TRIESIM_KNOWN=key[,key] (used before a finding is listed).
+func knownOpen() map[string]bool {
+	if knownCache != nil {
+		return knownCache
+	}
+	knownCache = map[string]bool{}
+	for _, k := range strings.Split(os.Getenv("TRIESIM_KNOWN"), ",") {
+		if k != "" {
+			knownCache[k] = true
+		}
+	}
+	path := os.Getenv("VERIF_KNOWN_FILE")
+	if path == "" {
+		path = "/verif/known_findings.json"
+	}
+	if b, err := os.ReadFile(path); err == nil {
+		var f struct {
+			Findings []struct {
+				Property, Status, Key string
+			} `json:"findings"`
+		}
+		if json.Unmarshal(b, &f) == nil {
+			for _, e := range f.Findings {
+				if e.Property == "C17" && (e.Status == "" || e.Status == "open") && e.Key != "" {
+					knownCache[e.Key] = true
+				}
+			}
+		}
+	}
+	return knownCache
+}
+
 // emitted caps the distinct-state digests reported per worker process (the driver drops a worker's
 // state set above 20000 entries); it never influences a run.
 var emitted = map[string]bool{}
@@ -976,6 +1036,13 @@ func (Engine) Run(t *testing.T, prop, tier string, tape *kernel.Tape, keepLog bo
 	res.Digest = s.log.Digest()
 	res.Stats = s.stats
 	res.Violation = s.viol
+	if s.viol != nil && s.viol.Key != "" && knownOpen()[s.viol.Key] {
+		// a genuine defect listed as an open known finding: reported (the driver prints KNOWN-FINDING),
+		// not failing, and the batch goes on. An unlisted key stays a VIOLATION.
+		res.Known = append(res.Known, *s.viol)
+		res.Violation = nil
+		res.Stats["known_finding_runs"] = 1
+	}
 	if s.viol != nil && os.Getenv("TRIESIM_SURVEY") != "" && (s.viol.Key != "" || os.Getenv("TRIESIM_SURVEY") == "all") {
 		// analysis aid: keep going after a violation and only count its class
 		res.Violation = nil
